@@ -119,13 +119,16 @@ def stale265 (p : P265) (au : AU) : Bool :=
 
 /-- First loop of `unitRemuxerH264/H265/AV1`: `(isKeyFrame, n)`.  `k` = number of parameter sets
 (`n += 2` / `n += 3`), `known` = all of them non-nil. -/
+def pass1Step (isDrop isKey : NALU → Bool) (k : Nat) (known : Bool) (st : Bool × Nat) (n : NALU) :
+    Bool × Nat :=
+  if isDrop n then st
+  else if isKey n then
+    let st' : Bool × Nat := if !st.1 then (true, if known then st.2 + k else st.2) else st
+    (st'.1, st'.2 + 1)
+  else (st.1, st.2 + 1)
+
 def pass1 (isDrop isKey : NALU → Bool) (k : Nat) (known : Bool) (au : AU) : Bool × Nat :=
-  au.foldl (fun (st : Bool × Nat) n =>
-    if isDrop n then st
-    else if isKey n then
-      let st' : Bool × Nat := if !st.1 then (true, if known then st.2 + k else st.2) else st
-      (st'.1, st'.2 + 1)
-    else (st.1, st.2 + 1)) (false, 0)
+  au.foldl (pass1Step isDrop isKey k known) (false, 0)
 
 /-- `filteredAU := make([][]byte, n)` filled from index 0 with `items`: more items than `n` is an
 index-out-of-range panic, fewer leaves nil entries at the end. `n == 0` returns nil (= `[]`). -/
